@@ -8,6 +8,12 @@ from math import comb
 NONINTEGRAL_FLOATS = [0]   # how often a non-integral float met a polynomial (reported in evidence)
 
 
+class ShadowUnsupported(TypeError):
+    """the code under test applied an operation to a shadow value that exact polynomials cannot follow (division by a
+    polynomial, a polynomial exponent, ...).  This says nothing about the code: the polynomial part of the oracle is then not
+    applicable to this tree and the numeric part decides."""
+
+
 class P:
     __slots__ = ("t",)
 
@@ -71,14 +77,16 @@ class P:
     def __pow__(s, n):
         if isinstance(n, float):
             if not n.is_integer():
-                raise TypeError("non-integral exponent on a polynomial: %r" % n)
+                raise ShadowUnsupported("non-integral exponent on a polynomial: %r" % n)
             n = int(n)
         if isinstance(n, Fraction):
             if n.denominator != 1:
-                raise TypeError("non-integral exponent on a polynomial: %r" % n)
+                raise ShadowUnsupported("non-integral exponent on a polynomial: %r" % n)
             n = int(n)
+        if isinstance(n, P):
+            raise ShadowUnsupported("polynomial used as an exponent")
         if n < 0:
-            raise TypeError("negative exponent on a polynomial")
+            raise ShadowUnsupported("negative exponent on a polynomial")
         r = P.const(1)
         b = s
         while n:
@@ -89,17 +97,26 @@ class P:
         return r
 
     def __rpow__(s, base):
-        raise TypeError("polynomial used as an exponent")
+        raise ShadowUnsupported("polynomial used as an exponent")
 
     def __truediv__(s, o):
         if isinstance(o, P):
             if list(o.t) == [()]:
                 o = o.t[()]
             else:
-                raise TypeError("division by a non-constant polynomial")
+                raise ShadowUnsupported("division by a non-constant polynomial")
         if isinstance(o, float):
             o = Fraction(o)
         return P({m: c / Fraction(o) for m, c in s.t.items()})
+
+    def __rtruediv__(s, o):
+        if list(s.t) == [()]:
+            return P.const(o) * P({(): 1 / s.t[()]})
+        raise ShadowUnsupported("division by a non-constant polynomial")
+
+    def __lt__(s, o):
+        raise ShadowUnsupported("ordering comparison on a polynomial")
+    __le__ = __gt__ = __ge__ = __lt__
 
     def __eq__(s, o):
         try:
